@@ -3,6 +3,7 @@ module github.com/gardenbed/emerge/verif
 go 1.24.0
 
 require (
+	github.com/gardenbed/charm v0.2.0
 	github.com/gardenbed/emerge v0.0.0
 	github.com/moorara/algo v0.11.0
 )
